@@ -66,6 +66,10 @@ type World struct {
 	pumpDone chan struct{}
 	sendWG   sync.WaitGroup
 
+	// FieldOrder, when non-zero, makes Conn.Request send the fields of every request in an order derived from this
+	// value and the request id (clients are free to order the fields of a request as they like); fields with the same
+	// id keep their relative order (the entries of a batch are a sequence).
+	FieldOrder uint64
 	// NewSplit, when set, gives every new connection its Splitter ("ctl" / "xfer").
 	NewSplit func(kind string) Splitter
 
@@ -383,3 +387,40 @@ func (w *World) OpenTransfer(remote string) *Conn {
 }
 
 var _ = io.Discard
+
+func (w *World) orderFields(fs []hlref.Field, reqID uint32) []hlref.Field {
+	if w == nil || w.FieldOrder == 0 || len(fs) < 2 {
+		return fs
+	}
+	// splitmix64 over (FieldOrder, request id): a pure function, so a replay sends the same bytes
+	x := w.FieldOrder*0x9e3779b97f4a7c15 + uint64(reqID)
+	next := func() uint64 {
+		x += 0x9e3779b97f4a7c15
+		z := x
+		z = (z ^ (z >> 30)) * 0xbf58476d1ce4e5b9
+		z = (z ^ (z >> 27)) * 0x94d049bb133111eb
+		return z ^ (z >> 31)
+	}
+	perm := make([]int, len(fs))
+	for i := range perm {
+		perm[i] = i
+	}
+	for i := len(perm) - 1; i > 0; i-- {
+		j := int(next() % uint64(i+1))
+		perm[i], perm[j] = perm[j], perm[i]
+	}
+	out := make([]hlref.Field, len(fs))
+	for pos, src := range perm {
+		out[pos] = fs[src]
+	}
+	// fields that share an id go back into their original relative order
+	byID := map[int][]hlref.Field{}
+	for _, f := range fs {
+		byID[f.ID] = append(byID[f.ID], f)
+	}
+	for i, f := range out {
+		out[i] = byID[f.ID][0]
+		byID[f.ID] = byID[f.ID][1:]
+	}
+	return out
+}
